@@ -28,6 +28,7 @@ RULE = ("One evaluation = one seeded execution: each side with or without a "
         "or a deadline expired. Distinct: event-log digests among non-trivial "
         "runs.")
 RULE += (' Relay topologies: none, one shared, sender-only, dead, or one relay per side (two hints of equal priority).')
+RULE += (" In a third of the runs one party's application cancels connect() while the race is open; sockets readable in the same reactor iteration are then still read once after loseConnection().")
 LEVEL_TEXT = ("Seeded exploration. Ground truth is which simulated link is "
               "which: the sender's winner must be a link whose far end is the "
               "keyed receiver and on which the full receiver handshake had "
